@@ -14,6 +14,7 @@ const (
 	refMain    = "refs/heads/main"
 	refRel     = "refs/heads/rel/1"
 	refScratch = "refs/heads/scratch"
+	refTag     = "refs/tags/v1"
 )
 
 var histRefs = []string{refMain, refRel, refScratch}
@@ -38,6 +39,8 @@ type polShape struct {
 	// its file is only reachable through the rel/* rule (scope must not leak to main)
 	Rel1Broad bool              `json:"rel1_broad,omitempty"`
 	Globals   []scen.GlobalRule `json:"globals,omitempty"`
+	Tag       []string          `json:"tag,omitempty"` // keys authorized for refs/tags/*
+	TagThr    int               `json:"tag_thr,omitempty"`
 }
 
 func principalsOf(keysets ...[]string) ([]scen.Principal, map[string]bool) {
@@ -68,13 +71,16 @@ func (s polShape) build() scen.Policy {
 		TargetsPrincipals: []scen.Principal{rootPrincipal}, TargetsThreshold: 1,
 		Globals: s.Globals,
 	}
-	tprs, _ := principalsOf(s.Main, s.Rel)
+	tprs, _ := principalsOf(s.Main, s.Rel, s.Tag)
 	tf := scen.RuleFile{Name: "targets", Principals: tprs, Signers: []string{"root"}}
 	if len(s.Main) > 0 {
 		tf.Rules = append(tf.Rules, scen.Rule{Name: "protect-main", Patterns: []string{"git:" + refMain}, Principals: ids(s.Main), Threshold: s.MainThr})
 	}
 	if len(s.Rel) > 0 {
 		tf.Rules = append(tf.Rules, scen.Rule{Name: "protect-rel", Patterns: []string{"git:refs/heads/rel/*"}, Principals: ids(s.Rel), Threshold: s.RelThr})
+	}
+	if len(s.Tag) > 0 {
+		tf.Rules = append(tf.Rules, scen.Rule{Name: "protect-tags", Patterns: []string{"git:refs/tags/*"}, Principals: ids(s.Tag), Threshold: s.TagThr})
 	}
 	p.Files = append(p.Files, tf)
 	if len(s.Rel) > 0 && s.RelDeleg >= 1 && len(s.Rel1) > 0 {
@@ -132,6 +138,16 @@ func randShape(r *rand.Rand) polShape {
 	s.Rel2 = subset(r, 1)
 	s.Rel2Thr = thr(r, len(s.Rel2))
 	s.Rel1Broad = r.IntN(3) == 0
+	return s
+}
+
+// withTags adds a tag rule to the shape (used by generators that emit tag events).
+func withTags(r *rand.Rand, s polShape) polShape {
+	s.Tag = subset(r, 1)
+	s.TagThr = thr(r, len(s.Tag))
+	if s.TagThr > 2 {
+		s.TagThr = 2
+	}
 	return s
 }
 
@@ -212,6 +228,7 @@ func mutateShape(r *rand.Rand, s polShape) polShape {
 var signersPool = []string{"k1", "k2", "k3", "k4", "kx", ""}
 
 type histOpts struct {
+	Tags        bool
 	Len         int
 	Propagation bool // allow propagation entries
 	Globals     bool
@@ -222,6 +239,10 @@ type histOpts struct {
 // genHistory samples a long history. The first event is always a policy.
 func genHistory(r *rand.Rand, o histOpts) *scen.History {
 	shape := randShape(r)
+	if o.Tags {
+		shape = withTags(r, shape)
+	}
+	lastTag := -1
 	h := &scen.History{}
 	add := func(e scen.Event) int { h.Events = append(h.Events, e); return len(h.Events) - 1 }
 	pol := shape.build()
@@ -238,6 +259,27 @@ func genHistory(r *rand.Rand, o histOpts) *scen.History {
 	for len(h.Events) < o.Len {
 		x := r.IntN(100)
 		switch {
+		case o.Tags && x < 14 && len(pushes) > 0: // tag an earlier push, or re-record / approve a tag
+			switch y := r.IntN(10); {
+			case y < 5:
+				i := add(scen.Event{Kind: "tag", Ref: refTag, OnPush: pushes[r.IntN(len(pushes))], TagSigner: signersPool[r.IntN(len(signersPool))], Signer: signersPool[r.IntN(len(signersPool))]})
+				lastTag = i
+			case y < 8 && lastTag >= 0:
+				// the same tag object recorded again (by a possibly different signer)
+				orig := lastTag
+				if h.Events[orig].Reuse > 0 {
+					orig = h.Events[orig].Reuse - 1
+				}
+				i := add(scen.Event{Kind: "tag", Ref: refTag, OnPush: h.Events[orig].OnPush, Reuse: orig + 1, Signer: signersPool[r.IntN(len(signersPool))]})
+				lastTag = i
+			default:
+				on := pushes[r.IntN(len(pushes))]
+				ap := []string{signersPool[r.IntN(5)]}
+				if r.IntN(2) == 0 {
+					ap = append(ap, signersPool[r.IntN(5)])
+				}
+				add(scen.Event{Kind: "approve", Ref: refTag, FromPush: lastTag, TagOn: on + 1, Approvers: ap, Signer: ap[0]})
+			}
 		case x < 50: // push
 			ref := histRefs[r.IntN(len(histRefs))]
 			signer := signersPool[r.IntN(len(signersPool))]
@@ -326,6 +368,9 @@ func describeEvent(i int, e scen.Event) string {
 		}
 		return fmt.Sprintf("%d:push %s by %q content=%s%s", i, e.Ref, e.Signer, e.Content, f)
 	case "approve":
+		if e.TagOn > 0 {
+			return fmt.Sprintf("%d:approve tagging of #%d as %s from#%d by %v", i, e.TagOn-1, e.Ref, e.FromPush, e.Approvers)
+		}
 		return fmt.Sprintf("%d:approve %s from#%d ->%s by %v", i, e.Ref, e.FromPush, e.Content, e.Approvers)
 	case "annotate":
 		return fmt.Sprintf("%d:annotate %v skip=%v", i, e.Targets, e.Skip)
@@ -343,6 +388,9 @@ func describeEvent(i int, e scen.Event) string {
 	case "propagation":
 		return fmt.Sprintf("%d:propagation %s by %q content=%s", i, e.Ref, e.Signer, e.Content)
 	case "tag":
+		if e.Reuse > 0 {
+			return fmt.Sprintf("%d:tag %s re-records the tag object of #%d, entry by %q", i, e.Ref, e.Reuse-1, e.Signer)
+		}
 		return fmt.Sprintf("%d:tag %s on#%d tagsigner=%q entry by %q", i, e.Ref, e.OnPush, e.TagSigner, e.Signer)
 	}
 	return fmt.Sprintf("%d:%s", i, e.Kind)
